@@ -10,6 +10,7 @@ type StackN<const N: usize, const S: usize> = any_vec::mem::StackN<N, S>;
 
 #[cfg(feature = "lib_alloc")]
 anyvec_pbt::configs! {
+    Pl2a1_StackNBig: Pl2a1, StackN<70, 140>, dyn Cloneable, G_BACKEND | G_STACK;
     Pl2a1_Stack:  Pl2a1,  Stack<9>, dyn Cloneable, G_BACKEND | G_STACK;
     Cc0_Multi:    Cc0,    Multi, dyn Cloneable, G_LAYOUT;
     Tr16_FixedA:   Tr16,   FixedB,          dyn Cloneable, G_ALIGN;
@@ -26,6 +27,7 @@ anyvec_pbt::configs! {
 
 #[cfg(not(feature = "lib_alloc"))]
 anyvec_pbt::configs! {
+    Pl2a1_StackNBig: Pl2a1, StackN<70, 140>, dyn Cloneable, G_BACKEND | G_STACK;
     Pl2a1_Stack:  Pl2a1,  Stack<9>, dyn Cloneable, G_BACKEND | G_STACK;
     Tr16_FixedA:   Tr16,   FixedB,          dyn Cloneable, G_ALIGN;
     Pl16_StackA:   Pl16,   Stack<48>,       dyn None,      G_ALIGN;
